@@ -162,6 +162,13 @@ def gen_attr_programs():
                     body = hdr + 'pub enum S { A(%s u32), B }\n' % at
                 progs.append({'name': 'attr_%s_%s_%s_%s' % (a, b, shape_.replace('-', ''), 'both' if both else 'one'), 'kind': 'attr-conflict',
                               'expect': 'reject' if both else 'accept', 'body': body})
+            # the same two attributes combined in ONE attribute list, in both orders
+            for x, y in ((a, b), (b, a)):
+                inner = lambda k: attrs[k][len('#[codec('):-2]
+                at = '#[codec(%s, %s)]' % (inner(x), inner(y))
+                body = {'named': hdr + 'pub struct S { %s f: u32, g: u8 }\n', 'tuple': hdr + 'pub struct S(%s u32, u8);\n',
+                        'variant-named': hdr + 'pub enum S { A { %s f: u32 }, B }\n', 'variant-tuple': hdr + 'pub enum S { A(%s u32), B }\n'}[shape_] % at
+                progs.append({'name': 'attr_list_%s_%s_%s' % (x, y, shape_.replace('-', '')), 'kind': 'attr-conflict', 'expect': 'reject', 'body': body})
     # unions
     for der in ('Encode', 'Decode', 'Encode, Decode'):
         progs.append({'name': 'union_%s' % der.replace(', ', '_'), 'kind': 'union', 'expect': 'reject',
@@ -192,6 +199,23 @@ def gen_attr_programs():
                   'body': '#[derive(Encode, Decode)]\n#[codec(crate = ::parity_scale_codec)]\npub struct NoTrack(u8);\n' + mt + 'pub struct S { a: NoTrack }\n'})
     progs.append({'name': 'memtrack_tracked_field', 'kind': 'marker', 'expect': 'accept',
                   'body': mt + 'pub struct Tr(u8);\n' + mt + 'pub struct S { a: Tr }\n'})
+    rep = ('#[derive(Encode, Decode)]\n#[codec(crate = ::parity_scale_codec)]\npub struct UntrackedRep(Vec<u8>);\n'
+           'impl From<UntrackedRep> for W { fn from(x: UntrackedRep) -> W { W(x.0.len() as u32) } }\n'
+           'impl From<W> for UntrackedRep { fn from(x: W) -> UntrackedRep { UntrackedRep(Vec::new()) } }\n'
+           'impl<\'a> parity_scale_codec::EncodeAsRef<\'a, W> for UntrackedRep { type RefType = UntrackedRep; }\n'
+           'impl<\'a> From<&\'a W> for UntrackedRep { fn from(x: &\'a W) -> UntrackedRep { UntrackedRep(Vec::new()) } }\n'
+           'impl parity_scale_codec::HasCompact for W { type Type = UntrackedRep; }\n')
+    wdef = mt + 'pub struct W(u32);\n'
+    progs.append({'name': 'memtrack_untracked_compact_rep', 'kind': 'marker', 'expect': 'reject',
+                  'body': wdef + rep + mt + 'pub struct S { #[codec(compact)] a: W, b: u8 }\n'})
+    progs.append({'name': 'memtrack_untracked_compact_rep_variant', 'kind': 'marker', 'expect': 'reject',
+                  'body': wdef + rep + mt + 'pub enum S { A(#[codec(compact)] W), B }\n'})
+    progs.append({'name': 'memtrack_compact_rep_twin', 'kind': 'marker', 'expect': 'accept',
+                  'body': wdef + rep + '#[derive(Encode, Decode)]\n#[codec(crate = ::parity_scale_codec)]\npub struct S { #[codec(compact)] a: W, b: u8 }\n'})
+    progs.append({'name': 'memtrack_untracked_encoded_as', 'kind': 'marker', 'expect': 'reject',
+                  'body': wdef + rep + mt + 'pub struct S { #[codec(encoded_as = "UntrackedRep")] a: W, b: u8 }\n'})
+    progs.append({'name': 'memtrack_tracked_compact', 'kind': 'marker', 'expect': 'accept',
+                  'body': mt + 'pub struct S { #[codec(compact)] a: u64, #[codec(encoded_as = "Compact<u32>")] b: u32, c: u8 }\n'})
     progs.append({'name': 'cel_option', 'kind': 'marker', 'expect': 'reject',
                   'body': 'fn need<T: parity_scale_codec::ConstEncodedLen>() {}\npub fn f() { need::<Option<u8>>(); }\n'})
     progs.append({'name': 'cel_compact', 'kind': 'marker', 'expect': 'reject',
@@ -234,6 +258,17 @@ def gen_bound_programs():
         ('const_generic', hdr + 'pub struct G<T, const N: usize> { a: [T; N] }\n', ['enc::<G<u8, 4>>()', 'dec::<G<u8, 4>>()'], ['enc::<G<NoCodec, 4>>()']),
         ('assoc_type', 'pub trait Tr { type A; }\npub struct Im;\nimpl Tr for Im { type A = u32; }\npub struct Bad;\nimpl Tr for Bad { type A = NoCodec; }\n' + hdr +
          'pub struct G<T: Tr> { a: T::A }\n', ['enc::<G<Im>>()', 'dec::<G<Im>>()'], ['enc::<G<Bad>>()', 'dec::<G<Bad>>()']),
+        ('recursive_swapped', hdr + 'pub struct G<A, B> { head: A, tail: Option<Box<G<B, A>>> }\n', ['enc::<G<u8, u16>>()', 'dec::<G<u8, u16>>()'], ['enc::<G<u8, NoCodec>>()']),
+        ('recursive_enum_swapped', hdr + 'pub enum G<K, V> { Leaf(K), Node(Vec<(K, G<V, K>)>) }\n', ['enc::<G<u8, u16>>()', 'dec::<G<u8, u16>>()'], ['enc::<G<u8, NoCodec>>()']),
+        ('assoc_named_like_self', 'pub trait Tr { type G; }\npub struct Im;\nimpl Tr for Im { type G = u32; }\npub struct Bad;\nimpl Tr for Bad { type G = NoCodec; }\n' + hdr +
+         'pub struct G<T: Tr> { a: T::G, b: Vec<T::G> }\n', ['enc::<G<Im>>()', 'dec::<G<Im>>()'], ['enc::<G<Bad>>()']),
+        ('assoc_enum_named_like_self', 'pub trait Tr { type G; }\npub struct Im;\nimpl Tr for Im { type G = u32; }\n' + hdr +
+         'pub enum G<T: Tr> { A(T::G), B }\n', ['enc::<G<Im>>()', 'dec::<G<Im>>()'], []),
+        ('compactas_generic', '#[derive(Encode, Decode, CompactAs)]\n#[codec(crate = ::parity_scale_codec)]\npub struct G<T>(T);\n', ['enc::<G<u32>>()', 'dec::<Compact<G<Inner>>>()', 'enc::<Compact<G<Inner>>>()'], []),
+        ('compactas_generic_bound', '#[derive(Encode, Decode, CompactAs)]\n#[codec(crate = ::parity_scale_codec)]\npub struct G<T: Clone>(T);\n', ['dec::<Compact<G<Inner>>>()', 'enc::<Compact<G<Inner>>>()'], []),
+        ('compactas_generic_where', '#[derive(Encode, Decode, CompactAs)]\n#[codec(crate = ::parity_scale_codec)]\npub struct G<T>(T) where T: Clone;\n', ['dec::<Compact<G<Inner>>>()', 'enc::<Compact<G<Inner>>>()'], []),
+        ('compactas_generic_skip', '#[derive(Encode, Decode, CompactAs)]\n#[codec(crate = ::parity_scale_codec)]\npub struct G<T, U> where U: Default { a: T, #[codec(skip)] b: U }\n',
+         ['dec::<Compact<G<Inner, DefOnly>>>()', 'enc::<Compact<G<Inner, DefOnly>>>()'], []),
         ('dumb', hdr + '#[codec(dumb_trait_bound)]\npub struct G<T>(PhantomData<T>, u8);\n', ['enc::<G<u8>>()', 'dec::<G<u8>>()'], ['enc::<G<NoCodec>>()', 'dec::<G<NoCodec>>()']),
         ('custom_bounds', hdr + '#[codec(encode_bound(T: Default))]\n#[codec(decode_bound(T: Default))]\npub struct G<T>(PhantomData<T>, u8);\n',
          ['enc::<G<DefOnly>>()', 'dec::<G<DefOnly>>()'], ['enc::<G<NoCodec>>()', 'dec::<G<NoCodec>>()']),
@@ -244,7 +279,8 @@ def gen_bound_programs():
         ('track_plain', '#[derive(Encode, Decode, DecodeWithMemTracking)]\n#[codec(crate = ::parity_scale_codec)]\npub struct G<T>(T, u8);\n', ['trk::<G<u8>>()', 'trk::<G<Vec<u8>>>()'], ['trk::<G<NoDef>>()']),
         ('track_skip', '#[derive(Encode, Decode, DecodeWithMemTracking)]\n#[codec(crate = ::parity_scale_codec)]\npub struct G<T> { #[codec(skip)] a: T, b: u8 }\n', ['trk::<G<DefOnly>>()'], []),
     ]
-    aux2 = '#[derive(Default, Clone)]\npub struct DefOnlyClone;\n'
+    aux2 = ('#[derive(Default, Clone)]\npub struct DefOnlyClone;\n'
+            '#[derive(Encode, Decode, CompactAs, Clone)]\n#[codec(crate = ::parity_scale_codec)]\npub struct Inner(u32);\n')
     progs = []
     for name, defn, ok_uses, bad_uses in cases:
         progs.append({'name': 'bound_%s_ok' % name, 'kind': 'bounds', 'expect': 'accept',
